@@ -22,6 +22,7 @@ import (
 	palomamempool "github.com/palomachain/paloma/v2/app/mempool"
 	consensustypes "github.com/palomachain/paloma/v2/x/consensus/types"
 	evmtypes "github.com/palomachain/paloma/v2/x/evm/types"
+	palomamodule "github.com/palomachain/paloma/v2/x/paloma"
 	schedulertypes "github.com/palomachain/paloma/v2/x/scheduler/types"
 	skywaytypes "github.com/palomachain/paloma/v2/x/skyway/types"
 	valsettypes "github.com/palomachain/paloma/v2/x/valset/types"
@@ -298,8 +299,65 @@ func (p *c19Pool) sel() []*c19Tx {
 	}
 	p.op("select", "sel "+s)
 	p.r.Stat("select")
+	p.monitors(out, true)
+	return out
+}
 
-	// --- monitors ---
+// selN runs Select and takes at most k transactions from the iterator (what PrepareProposal
+// does until the block is full), then abandons it.
+func (p *c19Pool) selN(k int) []*c19Tx {
+	var out []*c19Tx
+	status := "end"
+	panicked := false
+	func() {
+		defer func() {
+			if e := recover(); e != nil {
+				panicked = true
+			}
+		}()
+		it := p.mp.Select(context.Background(), nil)
+		for n := 0; it != nil && n < k; n++ {
+			out = append(out, it.Tx().(*c19Tx))
+			it = it.Next()
+		}
+		if it != nil {
+			status = "more"
+		}
+	}()
+	toks := make([]string, len(out))
+	for i, t := range out {
+		toks[i] = fmt.Sprintf("%s:%d:%d", t.sender, t.nonce, t.id)
+	}
+	s := "-"
+	if len(toks) > 0 {
+		s = strings.Join(toks, ",")
+	}
+	if panicked {
+		p.op(fmt.Sprintf("seln %d", k), "part "+s+" panic")
+		p.r.Stat("finding.minvalue_priority_panics")
+		return out
+	}
+	p.op(fmt.Sprintf("seln %d", k), "part "+s+" "+status)
+	p.r.Stat("seln." + status)
+	want := k
+	if len(p.pending) < want {
+		want = len(p.pending)
+	}
+	if len(out) != want {
+		p.hit("partial_length", fmt.Sprintf("took %d of %d pending with k=%d", len(out), len(p.pending), k))
+	}
+	if status == "end" && len(out) != len(p.pending) {
+		p.hit("partial_end_complete", fmt.Sprintf("iterator ended after %d of %d pending", len(out), len(p.pending)))
+	}
+	if status == "more" && len(out) != k {
+		p.hit("partial_more_k", fmt.Sprintf("iterator alive after %d yields, k=%d", len(out), k))
+	}
+	p.monitors(out, false)
+	return out
+}
+
+// monitors evaluates the property on a yielded sequence; complete = the iterator was exhausted.
+func (p *c19Pool) monitors(out []*c19Tx, complete bool) {
 	seen := map[int]int{}
 	last := map[string]uint64{}
 	started := map[string]bool{}
@@ -318,8 +376,16 @@ func (p *c19Pool) sel() []*c19Tx {
 		last[t.sender] = t.nonce
 	}
 	for _, t := range p.pending {
-		if seen[t.id] != 1 {
+		if (complete && seen[t.id] != 1) || seen[t.id] > 1 {
 			p.hit("each_pending_once", fmt.Sprintf("pending tx %d (%s:%d) yielded %d times", t.id, t.sender, t.nonce, seen[t.id]))
+		}
+		// no gap: a yielded tx is never ahead of a pending tx of the same sender with a smaller nonce
+		if seen[t.id] == 0 {
+			for _, u := range out {
+				if u.sender == t.sender && u.nonce > t.nonce {
+					p.hit("sender_no_gap", fmt.Sprintf("%s:%d yielded while pending %s:%d was not", u.sender, u.nonce, t.sender, t.nonce))
+				}
+			}
 		}
 	}
 	// class order: when t is yielded, every other sender's next (first not yet yielded) tx u
@@ -339,7 +405,6 @@ func (p *c19Pool) sel() []*c19Tx {
 			}
 		}
 	}
-	return out
 }
 
 func (p *c19Pool) count() {
@@ -398,7 +463,22 @@ func TestC19(t *testing.T) {
 		r.Stat(fmt.Sprintf("prio.class%d", c19ClassOf(tx.urls)))
 	}
 
-	// ---------- two fixed histories outside the precondition (the code as it is) ----------
+	// ---------- the CheckTx priority the application hands to Insert ----------
+	// app/app.go builds the ante handler with TxFeeChecker: palomamodule.TxFeeSkipper; the SDK's
+	// DeductFeeDecorator stores its second result with ctx.WithPriority.
+	{
+		_, pri, err := palomamodule.TxFeeSkipper(sdk.Context{}, nil)
+		out := strconv.FormatInt(pri, 10)
+		if err != nil {
+			out = "err"
+		}
+		if pri <= math.MinInt64 || pri >= math.MaxInt64-3 {
+			r.Hit("app_ctx_priority_in_range", fmt.Sprintf("TxFeeSkipper priority %d collides with the class ranks or MinValue", pri), nil)
+		}
+		r.Op("ctxprio", out)
+	}
+
+	// ---------- fixed histories at the edge of / outside the precondition (the code as it is) ----------
 	{
 		send := []sdk.Msg{&banktypes.MsgSend{}}
 		// (1) re-inserting a pending (sender, nonce) with a different priority: the sender-index
@@ -419,6 +499,34 @@ func TestC19(t *testing.T) {
 		p.insert(p.mkTx(0, 0, send, math.MinInt64))
 		p.sel()
 		p.count()
+		// (3) the panic also loses ordinary transactions queued behind the MinValue one:
+		// sender 2 has nonce 0 at MinInt64 and nonce 1 at priority 9, sender 0 one tx at 5
+		p = r.c19New()
+		p.tainted = true
+		p.insert(p.mkTx(2, 0, send, math.MinInt64))
+		p.insert(p.mkTx(2, 1, send, 9))
+		p.insert(p.mkTx(0, 0, send, 5))
+		p.selN(0)
+		p.selN(1)
+		out = p.sel()
+		p.count()
+		if len(out) < 3 && p.mp.CountTx() == 3 {
+			r.Stat("finding.minvalue_priority_panic_loses_other_txs")
+		}
+		// (4) a CheckTx priority at the top of the int64 range is not below the class ranks:
+		// a bank send with ctx.Priority() = MaxInt64 is proposed before a scheduler transaction
+		// (and ties with the consensus class); at MaxInt64-3 it ties with the valset class.
+		p = r.c19New()
+		p.tainted = true
+		bank := p.mkTx(0, 0, send, math.MaxInt64)
+		job := p.mkTx(1, 0, []sdk.Msg{&schedulertypes.MsgCreateJob{}}, 0)
+		p.insert(bank)
+		p.insert(job)
+		out = p.sel()
+		p.count()
+		if len(out) == 2 && out[0].id == bank.id && out[1].id == job.id {
+			r.Stat("finding.ctx_priority_maxint64_outranks_scheduler_class")
+		}
 	}
 
 	// ---------- histories ----------
@@ -494,6 +602,16 @@ func TestC19(t *testing.T) {
 					p.remove(r.Rng.Intn(nSenders+1), uint64(r.Rng.Intn(maxNonce+1)))
 				}
 			case x < 19:
+				if r.Rng.Intn(4) == 0 { // take only some transactions and abandon the iterator
+					k := r.Rng.Intn(len(p.pending) + 2)
+					if r.Rng.Intn(4) == 0 {
+						k = len(p.pending) + r.Rng.Intn(2) - 1 + r.Rng.Intn(2) // boundary: |pending|-1 .. |pending|+1
+						if k < 0 {
+							k = 0
+						}
+					}
+					p.selN(k)
+				}
 				p.sel()
 				selects++
 				if r.Rng.Intn(3) == 0 { // repeated select without anything in between
